@@ -25,7 +25,9 @@ var evals int
 
 // eval runs the real Zeno code once. parentStringed: parent.String() was called before (as the
 // archiver does), which must not matter for a pure function of (text, parent URL).
-func eval(text, parent string, parentStringed bool) (r result) { return evalP(text, parent, parentStringed, false) }
+func eval(text, parent string, parentStringed bool) (r result) {
+	return evalP(text, parent, parentStringed, false)
+}
 
 // evalP: preParsed = the URL value went through Parse() before NormalizeURL, the way the queue
 // sources and the command line build a seed (hq/lq consumer, pipeline.go); the second result tells
@@ -64,6 +66,40 @@ func evalP(text, parent string, parentStringed, preParsed bool) (r result) {
 		r.Str += fmt.Sprintf(" [GetParsed()=%v]", pu) // the parsed form is what is fetched: it must be the canonical one
 	}
 	return r
+}
+
+var sharedParents = map[string]*models.URL{}
+
+// evalShared normalises text against the long-lived parent object of this process and reports whether the
+// parent still reads as it did (if not, the object is replaced so that one mutation is one failure).
+func evalShared(text, parent string) (r result, mutated string) {
+	p := sharedParents[parent]
+	if p == nil {
+		p = &models.URL{Raw: parent}
+		if err := p.Parse(); err != nil {
+			panic(vsched.EngineError{Msg: "bad parent " + parent})
+		}
+		sharedParents[parent] = p
+	}
+	evals++
+	defer func() {
+		if x := recover(); x != nil {
+			r = result{Err: fmt.Sprintf("PANIC: %v", x)}
+		}
+		if got := p.GetParsed().String(); got != parent || p.Raw != parent {
+			mutated = fmt.Sprintf("parent %q reads %q (Raw %q) after normalising %q against it", parent, got, p.Raw, text)
+			delete(sharedParents, parent)
+		}
+	}()
+	u := &models.URL{Raw: text}
+	if err := preprocessor.NormalizeURL(u, p); err != nil {
+		return result{Err: err.Error()}, ""
+	}
+	r = result{Raw: u.Raw, Str: u.String()}
+	if pu := u.GetParsed(); pu == nil || pu.String() != r.Str {
+		r.Str += fmt.Sprintf(" [GetParsed()=%v]", pu)
+	}
+	return r, ""
 }
 
 // Fail is one oracle failure; Sig names clause, observable and failing input class.
@@ -146,6 +182,16 @@ func check(c Case, st *stats) (fails []Fail) {
 	}
 	if r := evalP(c.Text, c.Parent, false, true); r.Err != "pre-parse failed" {
 		diff("url-parsed-before-as-sources-do", r)
+	}
+	if c.Parent != "" {
+		// the parent is one object for all the children of a page (preprocess() walks them in a loop): the
+		// same object serves every case of this shard, accepted and rejected ones, and must come out of each
+		// call as it went in
+		r, mutated := evalShared(c.Text, c.Parent)
+		diff("parent-object-shared-with-earlier-siblings", r)
+		if mutated != "" {
+			add("determinism:parent-mutated:"+form, "NormalizeURL changed its parent argument: %s", mutated)
+		}
 	}
 
 	if def.Err != "" {
@@ -411,6 +457,12 @@ func rfcResolve(parent, ref string) (string, bool) {
 		return "", false
 	}
 	t := b.ResolveReference(r)
+	if p := t.Port(); p != "" {
+		// net/url accepts any digits; the URL standard's port is at most 65535: no result to demand
+		if n, err := strconv.Atoi(p); err != nil || n > 65535 {
+			return "", false
+		}
+	}
 	t.Fragment, t.RawFragment = "", ""
 	if t.Path == "" {
 		t.Path = "/"
